@@ -5,7 +5,8 @@ CONSTANTS
   MaxE = 3
   StartVals = {0, 1, 3}
   Defaults = {0}
-  Bounds <- BoundsInf12
+  FamIdx = {1, 2, 3, 4, 6}
+  Bounds <- BoundsInf1
   FullUpTo = 2
   SampleT = 12
 INIT DInit
